@@ -226,12 +226,17 @@ def git_alias_expand(tbl, argv, builtins):
     if st != "ok":
         return ("exit", k)            # git stops at argv[k] (query, unknown option, missing value)
     if k >= len(argv) or argv[k].startswith("-"):
-        return ("vec", list(argv))
+        return ("vec", list(argv), False)
     opts, cmd, rest = list(argv[:k]), argv[k], list(argv[k + 1:])
+    # git tries git-<cmd> on PATH before it looks for an alias and commits the pager choice there: after a
+    # user-typed --no-pager/-P (GIT_PAGER=cat is exported) a later -p/--paginate inside an alias has no effect
+    pg = [t for t in opts if t in ("-p", "--paginate", "-P", "--no-pager")]
+    pager_off = bool(pg) and pg[-1] in ("-P", "--no-pager")
+    dropped = False
     seen = []
     while True:
         if cmd in builtins or cmd not in last:
-            return ("vec", opts + [cmd] + rest)
+            return ("vec", opts + [cmd] + rest, dropped)
         if cmd in seen:
             return ("die", "alias loop")
         seen.append(cmd)
@@ -250,7 +255,11 @@ def git_alias_expand(tbl, argv, builtins):
             return ("die", "empty alias")
         if toks[n] == cmd:
             return ("die", "recursive alias")
-        opts, cmd, rest = opts + toks[:n], toks[n], toks[n + 1:] + rest
+        add = toks[:n]
+        if pager_off and any(t in G_NOENV_NOVALUE for t in add):
+            dropped = True
+            add = [t for t in add if t not in G_NOENV_NOVALUE]
+        opts, cmd, rest = opts + add, toks[n], toks[n + 1:] + rest
 
 
 # ------------------------------------------------------------------ helpers
@@ -697,9 +706,12 @@ def run(ctx):
         distinct.add(("chain", tuple(tbl), tuple(a)))
         exp = git_alias_expand(tbl, a, builtins)
         if exp[0] == "vec":
-            chain_expect[i] = exp[1]
+            chain_expect[i] = (exp[1], exp[2])
             n_chain_exact += 1
-            if vec != exp[1]:
+            k8 = exp[2] and [t for t in vec if t not in G_NOENV_NOVALUE] == [t for t in exp[1] if t not in G_NOENV_NOVALUE]
+            if vec != exp[1] and k8:
+                known_seen.add("C18-K8 user-typed --no-pager/-P with an alias whose expansion contains -p/--paginate: git keeps the pager off, the proxy's vector turns it on")
+            elif vec != exp[1]:
                 violations.append((f"aliases {tbl}: git {a} is handed to git as {vec}; git's own expansion is {exp[1]}",
                                    {"kind": "alias-chain", "aliases": tbl, "argv": a, "to_git": vec,
                                     "git_expansion": exp[1]}))
@@ -715,12 +727,15 @@ def run(ctx):
                     n_chain_pty += 1
                     pa, pb = g.run_pty(a), g.run_pty(vec)
                     n_git_runs += 2
-                    if pa != pb:
+                    if pa != pb and k8:
+                        known_seen.add("C18-K8 user-typed --no-pager/-P with an alias whose expansion contains -p/--paginate: git keeps the pager off, the proxy's vector turns it on")
+                    elif pa != pb:
                         violations.append((f"aliases {tbl}: on a terminal git {a} and git {vec} (the proxy's vector) behave differently",
                                            {"kind": "alias-chain-pty", "aliases": tbl, "argv": a, "to_git": vec,
                                             "git_user": pa, "git_proxy": pb}))
                     paged = pa[1].startswith("PAGED:")
-                    if paged != any(t in G_NOENV_NOVALUE for t in exp[1][:git_handle_options(exp[1])[0]]) and pa[0] == 0:
+                    pgo = [t for t in exp[1][:git_handle_options(exp[1])[0]] if t in ("-p", "--paginate", "-P", "--no-pager")]
+                    if paged != (bool(pgo) and pgo[-1] in G_NOENV_NOVALUE) and pa[0] == 0:
                         port_bad.append(f"{tbl} {a}: paged={paged} but expansion is {exp[1]}")
         elif exp[0] == "exit":
             if vec[:exp[1] + 1] != a[:exp[1] + 1]:
@@ -793,10 +808,15 @@ def run(ctx):
         got = lines[-1].split("\0")[1:-1] if lines else None
         if got and len(got) >= 2 and got[0] == "-c" and got[1].startswith("core.hooksPath="):
             got = got[2:]
-        if got != chain_expect[i]:
-            violations.append((f"aliases {tbl}: the git-ai binary ran git {got} for {a}; git's own expansion is {chain_expect[i]}",
+        want_e, k8 = chain_expect[i]
+        if got != want_e and k8 and got is not None and \
+                [t for t in got if t not in G_NOENV_NOVALUE] == [t for t in want_e if t not in G_NOENV_NOVALUE]:
+            known_seen.add("C18-K8 user-typed --no-pager/-P with an alias whose expansion contains -p/--paginate: "
+                           "git keeps the pager off, the proxy's vector turns it on")
+        elif got != want_e:
+            violations.append((f"aliases {tbl}: the git-ai binary ran git {got} for {a}; git's own expansion is {want_e}",
                                {"kind": "alias-chain-e2e", "aliases": tbl, "argv": a, "binary_ran": got,
-                                "git_expansion": chain_expect[i]}))
+                                "git_expansion": want_e}))
         o = cimpl.get("c%d" % i)
         want_vec = list(a) if o == "none" else (dec_list(fields(o)["vec"]) if o and o != "panic" else None)
         if got != want_vec:
